@@ -1,8 +1,7 @@
 #!/bin/bash
 # usage: tools/try_mutant_wt.sh <patch.diff> <Cxx> [more Cxx...]
 # like try_mutant.sh but applies the change in a scratch worktree (/tmp/mutrepo, created on demand) and points the checks at it with
-# PGF_REPO, so /repo itself stays untouched (usable while other runs are reading /repo). NB: rewrites evidence/<Cxx>.json - re-run the
-# check on the unchanged tree afterwards.
+# PGF_REPO, so /repo itself stays untouched (usable while other runs are reading /repo). Evidence of these runs goes to /tmp/mut_evidence, not to /verif/evidence.
 set -u
 patch="$1"; shift
 wt=/tmp/mutrepo
@@ -13,5 +12,5 @@ git checkout -- . ; git apply "$patch" || { echo "patch does not apply"; exit 2;
 trap 'git -C /tmp/mutrepo checkout -- .' EXIT
 for id in "$@"; do
   echo "== $id"
-  (cd /verif && PGF_REPO=$wt ./check "$id" quick 2>&1 | grep -E "^(VIOLATION|OK)|\[" | head -5)
+  (cd /verif && PGF_EVIDENCE_DIR=/tmp/mut_evidence PGF_REPO=$wt ./check "$id" quick 2>&1 | grep -E "^(VIOLATION|OK)|\[" | head -5)
 done
